@@ -1,6 +1,7 @@
 package checks
 
 import (
+	"bytes"
 	"fmt"
 	"os"
 	"path/filepath"
@@ -21,6 +22,7 @@ import (
 const c13Rule = "(a) rapid-generated sequential histories on the multihash primary with GC cycles, flushes and reopens: the expected multiset of freed locations (the location a key had immediately before each overwrite with a different value, each successful Remove and each GC relocation, read through the public Index().Get) must equal the observed multiset = batches handed to and fully processed by GC (read from the .gc file at the named point before it is removed) + entries left in .free/.free.gc after a final flush; no observed entry may be a current location at hand-over time or at the end; after a completed cycle every delivered location is marked deleted or truncated away. " +
 	"(c) crash clause: workloads of the C03 generator under the crash recorder; for drawn crash images (preferably inside the hand-over / freelist processing) every complete entry that was in .free/.free.gc when the process died must, after recovery, a flush and two GC cycles, name a dead record. (b) concurrent histories on the freelist package alone (putters, Flush, ToGC with the consumer deleting the .gc file, delays injected at the named points inside Flush/ToGC from a generated schedule): multiset of all Puts = batches + final file. " +
 	"(a') the same oracle on bulk histories: 350-800 keys written, flushed, all overwritten or removed, flushed, then GC cycles - one hand-over of several hundred entries (more than any read buffer holds); " +
+	"(d) a call inside a flush: a Flush is suspended by the cooperative scheduler at a drawn point of the flush pipeline (mostly right after the commit has taken its freelist mark, with superseded locations pending before the mark), a writer task completes 1-3 overwrites/removals, the flush completes; then a Flush, and after each of two GC cycles another Flush: every superseded location must be recorded exactly once on the freelist files / hand-overs, nothing else, and no current location; " +
 	"non-trivial = (a) >=3 superseded locations spread over >=2 completed hand-overs, (b) >=2 hand-overs while puts were in flight; distinct = distinct canonical JSON of the case"
 
 type c13Stats struct {
@@ -238,6 +240,196 @@ func runC13(c SeqCase) (SeqStats, c13Stats, *Violation) {
 	return st, cs, v
 }
 
+// --- (d) a call inside a suspended flush ----------------------------------
+
+// genC13Inside: the situation of the third suspended-call shape (a Flush is
+// suspended at a drawn point, a writer task completes a few calls, the flush
+// completes), here without a crash: afterwards everything is flushed and the
+// books are checked. The flush mostly stops right after the commit has taken
+// its freelist mark, with superseded locations pending before the mark.
+func genC13Inside(t *rapid.T) SuspCase {
+	c := genSusp3(t)
+	c.Cfg.Primary = store.MultihashPrimary
+	c.Cfg.Immutable = false
+	pts := append([]string{"commit.marked", "flush.stamped"}, suspFlushPoints...)
+	w := make([]int, len(pts))
+	for i := range w {
+		w[i] = 1
+	}
+	w[0] = 2 * len(pts)
+	c.PointFlush = pts[weighted(t, "c13point", w)]
+	// Pending superseded locations before the flush begins.
+	for i := 0; i < 2; i++ {
+		k := rapid.IntRange(0, len(c.Keys)-1).Draw(t, "prekey")
+		c.Prefix = append(c.Prefix, Op{K: opPut, Key: k, VLen: 3 + i})
+		c.Unflushed = append(c.Unflushed, Op{K: opPut, Key: k, VLen: 20 + i})
+	}
+	return c
+}
+
+func runC13Inside(c SuspCase) (hit bool, v *Violation) {
+	dir := newScratch("c13in")
+	defer os.RemoveAll(dir)
+	s, err := openStore(dir, c.Cfg)
+	if err != nil {
+		panic(infraError{err})
+	}
+	defer closeQuietly(s)
+	enc := func(k int) []byte { return c.Keys[k%len(c.Keys)].Encode(c.Cfg.Primary, false) }
+	expected := locCount{}
+	observed := locCount{}
+	locs := func() map[int]types.Block {
+		out := map[int]types.Block{}
+		for k, ks := range c.Keys {
+			if blk, found, err := s.Index().Get(ks.Digest); err == nil && found {
+				// The entry may belong to another key sharing the prefix.
+				if key, _, err := s.Primary().Get(blk); err == nil && key != nil {
+					if ik, err := s.Primary().IndexKey(key); err == nil && string(ik) == string(ks.Digest) {
+						out[k] = blk
+					}
+				}
+			}
+		}
+		return out
+	}
+	superseded := 0
+	around := func(fn func() error) error {
+		before := locs()
+		if err := fn(); err != nil {
+			return err
+		}
+		after := locs()
+		for k, b := range before {
+			if a, still := after[k]; !still || a != b {
+				expected[b]++
+				superseded++
+			}
+		}
+		return nil
+	}
+	apply := func(i int, op Op) error {
+		k := op.Key % len(c.Keys)
+		switch op.K {
+		case opPut, opRePut:
+			return around(func() error { return s.Put(enc(k), valueFor(i, op.VLen, false)) })
+		case opRemove:
+			return around(func() error { _, err := s.Remove(enc(k)); return err })
+		case opFlush:
+			return s.Flush()
+		}
+		return nil
+	}
+	for i, op := range append(append([]Op{}, c.Prefix...), Op{K: opFlush}) {
+		if apply(i, op) != nil {
+			return false, nil
+		}
+	}
+	for i, op := range c.Unflushed {
+		if apply(7000+i, op) != nil {
+			return false, nil
+		}
+	}
+	pendingBefore := superseded
+	sch := newScheduler()
+	sch.install()
+	sch.spawn("flush", func(yield func(string)) { s.Flush() })
+	werr := false
+	sch.spawn("writer", func(yield func(string)) {
+		for i, op := range c.Other {
+			if apply(8000+i, op) != nil {
+				werr = true
+				return
+			}
+		}
+	})
+	allDone := sch.run(singlePreemption{a: 0, point: c.PointFlush, n: 1, order: []int{1}}, 6000)
+	parkedThere := sch.tasks[0].hits[c.PointFlush] > 0
+	late := sch.lateArrivals
+	sch.release()
+	sch.join(20 * time.Second)
+	sch.uninstall()
+	if !allDone || werr || late > 0 {
+		return false, nil // not the serialized situation; the books would still have to balance, but keep the case simple
+	}
+	hit = parkedThere && superseded > pendingBefore && pendingBefore > 0
+	var hookViol *Violation
+	vhook.SetHandler(func(name string) {
+		if name != "pgc.fl.remove" {
+			return
+		}
+		ents, err := parseFreelist(filepath.Join(dir, idxBase+".free.gc"))
+		if err != nil {
+			return
+		}
+		cur := map[types.Block]int{}
+		for k, b := range locs() {
+			cur[b] = k
+		}
+		for _, e := range ents {
+			b := types.Block{Offset: types.Position(e.Offset), Size: types.Size(e.Size)}
+			observed[b]++
+			if k, live := cur[b]; live && hookViol == nil {
+				hookViol = viol("current-location-handed-to-gc|pgc|inside-flush@"+c.PointFlush, -1, "location %d/%d is the current location of key %d and was handed to GC", e.Offset, e.Size, k)
+			}
+		}
+	})
+	defer vhook.SetHandler(nil)
+	books := func(when string) *Violation {
+		if err := s.Flush(); err != nil {
+			return nil
+		}
+		final := locCount{}
+		for b, n := range observed {
+			final[b] = n
+		}
+		for _, name := range []string{idxBase + ".free", idxBase + ".free.gc"} {
+			ents, err := parseFreelist(filepath.Join(dir, name))
+			if err != nil {
+				return viol("freelist-unreadable|"+when+"|", -1, "%v", err)
+			}
+			for _, e := range ents {
+				final[types.Block{Offset: types.Position(e.Offset), Size: types.Size(e.Size)}]++
+			}
+		}
+		site := when + "|inside-flush@" + c.PointFlush
+		for b, n := range expected {
+			switch got := final[b]; {
+			case got < n:
+				return viol("freed-location-lost|"+site, -1, "location %d/%d was superseded %d time(s) (by a call that ran while a Flush was suspended at %s, or before it) but is recorded %d time(s) on the freelist files / hand-overs after a completed Flush (expected %v, recorded %v)", b.Offset, b.Size, n, c.PointFlush, got, expected, final)
+			case got > n:
+				return viol("freed-location-duplicated|"+site, -1, "location %d/%d was superseded %d time(s) but is recorded %d times (expected %v, recorded %v)", b.Offset, b.Size, n, got, expected, final)
+			}
+		}
+		for b := range final {
+			if expected[b] == 0 {
+				return viol("unexpected-freed-location|"+site, -1, "location %d/%d is recorded although nothing superseded it (expected %v, recorded %v)", b.Offset, b.Size, expected, final)
+			}
+		}
+		for k, b := range locs() {
+			if final[b] != 0 {
+				return viol("current-location-recorded|"+site, -1, "current location %d/%d of key %d is recorded as free", b.Offset, b.Size, k)
+			}
+		}
+		return nil
+	}
+	return hit, guard(-1, "c13-inside", func() *Violation {
+		if v := books("after-flush"); v != nil {
+			return v
+		}
+		mp := mhPrimaryOf(s)
+		for r := 0; r < 2; r++ {
+			around(func() error { mp.GC(bg, int64(c.GCLow)); return nil })
+			if hookViol != nil {
+				return hookViol
+			}
+			if v := books(fmt.Sprintf("after-gc-%d", r+1)); v != nil {
+				return v
+			}
+		}
+		return nil
+	})
+}
+
 // --- (b) freelist package under concurrency -------------------------------
 
 // FLCase is a concurrent history on one freelist.
@@ -441,6 +633,19 @@ func TestC13(t *testing.T) {
 			}
 			return
 		}
+		if bytes.Contains(r.Case, []byte(`"fg"`)) {
+			var c SuspCase
+			readReplay(envReplay, &c)
+			for i := 0; i < 10; i++ {
+				_, v := runC13Inside(c)
+				ev.Record(c, true)
+				if v = judge(v); v != nil {
+					ev.Report(v, c)
+					t.Fatalf("replay: %v", v)
+				}
+			}
+			return
+		}
 		var c SeqCase
 		readReplay(envReplay, &c)
 		for i := 0; i < 10; i++ {
@@ -614,6 +819,27 @@ func TestC13(t *testing.T) {
 		n, v := runFL(c)
 		ev.Record(c, n >= 2, "freelist-concurrent")
 		if v != nil && ev.Report(v, c) {
+			rt.Fatalf("%v", v)
+		}
+	})
+	if t.Failed() {
+		return
+	}
+	// (d) a call inside a suspended flush, then the books.
+	setRapidChecks(budget(600, 2000))
+	rapid.Check(t, func(rt *rapid.T) {
+		if pastDeadline() {
+			ev.Skip()
+			return
+		}
+		c := genC13Inside(rt)
+		hit, v := runC13Inside(c)
+		cl := []string{"call-inside-suspended-flush"}
+		if hit {
+			cl = append(cl, "call-inside-suspended-flush:superseded-inside@"+c.PointFlush)
+		}
+		ev.Record(c, hit, cl...)
+		if v = judge(v); v != nil && ev.Report(v, c) {
 			rt.Fatalf("%v", v)
 		}
 	})
